@@ -124,6 +124,8 @@ impl<H> HandlerVec<H> {
             if remaining == 0 {
                 break;
             }
+            #[cfg(feature = "_verif_hooks")]
+            crate::verif_hooks::add_handler_steps(1);
             if item.user_count > 0 {
                 remaining = remaining.saturating_sub(item.user_count);
                 first = Some(idx);
